@@ -367,6 +367,56 @@ def grid_cases(tier, seed):
                    "spell": None if coll == "list" else [n + pooling, 3, 1, 4, 2], "subclass": "namespace" if coll in ("list", "generator") and n > 1 else None}
 
 
+# ---- very long key lists ---------------------------------------------------------------------------------------------------
+
+def long_list_cases(tier, seed):
+    for nsrv, n in ((1, 10001), (1, 25000), (3, 31000)) if tier == "quick" else ((1, 10001), (1, 25000), (3, 31000), (2, 60001), (1, 100003)):
+        for op in ("get_many", "gets_many"):
+            for pooling in (False, True):
+                yield {"servers": nsrv, "n": n, "op": op, "pooling": pooling}
+
+
+def check_long_list(case):
+    """a multi-key read of tens of thousands of keys: every key is asked of the server placement gives it, exactly once, and the
+    merged result holds every key with the value a single-key read gives"""
+    from vlib.mcserver import Item
+    addrs = T_SERVERS[:case["servers"]]
+    env = Env(addrs=addrs)
+    names = [node_name(a) for a in addrs]
+    keys = ["key%d" % i for i in range(case["n"])]
+    home = {}
+    for k in keys:
+        nm = names[0] if len(names) == 1 else refhash.place(names, k)
+        home[k] = nm
+        srv = env.servers[names.index(nm)]
+        srv.store[k.encode()] = Item(b"v-" + k.encode(), 0, 0, srv._next_cas(), srv.clock.now)
+    desc = "%s of %d keys over %r (pooling %r)" % (case["op"], case["n"], names, case["pooling"])
+    with virtual_time(env.clock):
+        hc = HashClient(list(addrs), socket_module=env.net, use_pooling=case["pooling"], default_noreply=False)
+        r = env.call(getattr(hc, case["op"]), list(keys))
+        if r[0] != "ok":
+            raise Violation(["long-list", "raises", type(r[1]).__name__], "raised %r: %s" % (r[1], desc))
+        asked = {}
+        for nm, srv in zip(names, env.servers):
+            for c in srv.log:
+                for wk in c.get("keys", ()):
+                    asked.setdefault(wk.decode(), []).append(nm)
+        for k in keys:
+            if asked.get(k) != [home[k]]:
+                raise Violation(["long-list", "asked"], "%r was asked of %r, it lives on %r: %s" % (k, asked.get(k), home[k], desc))
+            got = r[1].get(k)
+            got = got[0] if case["op"] == "gets_many" and isinstance(got, tuple) else got
+            if got != b"v-" + k.encode():
+                raise Violation(["long-list", "value"], "the result holds %r for %r; a single-key read gives %r: %s" % (got, k, b"v-" + k.encode(), desc))
+        if len(r[1]) != len(keys):
+            raise Violation(["long-list", "size"], "the result holds %d keys, %d were asked for: %s" % (len(r[1]), len(keys), desc))
+        one = env.call(hc.get, keys[-1])
+        if one != ("ok", b"v-" + keys[-1].encode()):
+            raise Violation(["long-list", "single"], "get(%r) gives %r: %s" % (keys[-1], one, desc))
+        hc.close()
+    return True, ["long-list", "servers=%d" % len(names)]
+
+
 # ---- two threads, one HashClient -------------------------------------------------------------------------------------
 
 def _ring_sched(funcs, preempt, first=0):
@@ -437,6 +487,7 @@ def check_two_threads(case):
 
 
 PARTS = [
+    Part("very-long-key-lists", "enum", check_long_list, cases=long_list_cases, shards={"quick": 12, "thorough": 16}, exhaustive=True),
     Part("two-threads-one-client", "enum", check_two_threads, cases=two_thread_cases, shards={"quick": 4, "thorough": 8}, exhaustive=True),
     Part("grid", "enum", check, cases=grid_cases, shards={"quick": 4, "thorough": 8}),
     Part("random", "hyp", check, strategy=case_strategy,
